@@ -150,8 +150,8 @@ pub fn gen_lib(r: &mut Rng, o: &LibOpts) -> StandardLibrary {
         for s in STRUCTS {
             if r.chance(2, 3) {
                 let so = LibOpts {
-                    max_keys: 3,
-                    max_depth: 2,
+                    max_keys: 4,
+                    max_depth: 3,
                     removed: false,
                     structs: true,
                     versions: false,
